@@ -513,6 +513,9 @@ pub enum EndMode {
     Drop,
     /// stop_stream(code): reset the send side
     Reset(u64),
+    /// finish() polled once; if it is still pending the application gives up on that call (its
+    /// timeout fires: the future is dropped) and calls finish() again
+    FinishRetried,
 }
 
 #[derive(Debug, Clone)]
@@ -833,6 +836,25 @@ async fn server_send_half<B: BodyBuf, S: h3::quic::SendStream<B>>(
                 .await
                 .map_err(|_| ())?;
         }
+        EndMode::FinishRetried => {
+            let first = {
+                let mut fut = Box::pin(s.finish());
+                std::future::poll_fn(|cx| std::task::Poll::Ready(std::future::Future::poll(fut.as_mut(), cx))).await
+            };
+            match first {
+                std::task::Poll::Ready(r) => {
+                    probe.record(actor, "finish", unit_out(&r, se));
+                    r.map_err(|_| ())?;
+                }
+                std::task::Poll::Pending => {
+                    probe.record(actor, "finish (future dropped while pending)", Out::Ok);
+                    probe
+                        .call(actor, "finish", s.finish(), |r| unit_out(r, se))
+                        .await
+                        .map_err(|_| ())?;
+                }
+            }
+        }
         EndMode::Drop => {}
         EndMode::Reset(c) => {
             s.stop_stream(Code::from(c));
@@ -1057,6 +1079,25 @@ async fn client_send_half<B: BodyBuf, S: h3::quic::SendStream<B>>(
                 .call(actor, "finish", s.finish(), |r| unit_out(r, se))
                 .await
                 .map_err(|_| ())?;
+        }
+        EndMode::FinishRetried => {
+            let first = {
+                let mut fut = Box::pin(s.finish());
+                std::future::poll_fn(|cx| std::task::Poll::Ready(std::future::Future::poll(fut.as_mut(), cx))).await
+            };
+            match first {
+                std::task::Poll::Ready(r) => {
+                    probe.record(actor, "finish", unit_out(&r, se));
+                    r.map_err(|_| ())?;
+                }
+                std::task::Poll::Pending => {
+                    probe.record(actor, "finish (future dropped while pending)", Out::Ok);
+                    probe
+                        .call(actor, "finish", s.finish(), |r| unit_out(r, se))
+                        .await
+                        .map_err(|_| ())?;
+                }
+            }
         }
         EndMode::Drop => {}
         EndMode::Reset(c) => {
